@@ -139,8 +139,47 @@ def hyp_run(fn, strategy, n, seed):
               suppress_health_check=list(HealthCheck))
     @given(strategy)
     def t(x):
-        fn(x)
+        deep_call(fn, x)
     t()
+
+
+def _make_big_frame(nlocals=136000):
+    """A trampoline whose frame has `nlocals` (never assigned) local variables."""
+    names = ', '.join('v%d' % i for i in range(nlocals))
+    src = 'def big_frame(fn, args):\n    if 0:\n        %s = None\n    return fn(*args)\n' % \
+        ' = '.join('v%d' % i for i in range(nlocals))
+    ns = {}
+    exec(compile(src, '<big_frame>', 'exec'), ns)
+    return ns['big_frame']
+
+
+_BIG = []
+_DEPTH = [0]
+
+
+def deep_call(fn, *args):
+    """Call fn(*args) from inside a frame of ~1 MB.  Only a matter of speed: CPython
+    3.11+ keeps interpreter frames in 16 KB "data stack" chunks which are mmap-ed when a
+    call crosses the end of the current chunk and munmap-ed as soon as that call returns.
+    The compiler's recursive tree walks cross such a boundary tens of thousands of times
+    per program (measured: 50 000 munmap calls for 4 generated programs, more system
+    than user time, munmap being slow in this sandbox).  A frame that is itself larger
+    than a chunk makes CPython allocate one big chunk (next power of two), and every
+    nested frame then lives in its free tail (~0.9 MB): no further mapping until a few
+    thousand frames deep.  Nothing about the code under test changes.  VERIF_NO_BIGFRAME=1 calls
+    directly."""
+    if os.environ.get('VERIF_NO_BIGFRAME') or _DEPTH[0]:
+        return fn(*args)
+    if not _BIG:
+        _BIG.append(_make_big_frame())
+    _DEPTH[0] += 1
+    try:
+        return _BIG[0](fn, args)
+    finally:
+        _DEPTH[0] -= 1
+
+
+in_fresh_thread = deep_call      # old name (the first remedy tried was a new thread)
 
 
 def ddmin(items, still_fails, max_tests=200):
